@@ -200,6 +200,9 @@ pub enum What {
     Unit { ty: usize, unit: usize },
     /// a rate of the `pair`-th (term, per) type pair
     Rate { pair: usize, term_unit: usize, term: Amt, per_unit: usize, per: Amt },
+    /// two values inside one format string (`form` selects the literal template),
+    /// i.e. two `Display::fmt` calls with their own formatters on one sink
+    Pair { a_ty: usize, a_unit: usize, a: Amt, b_ty: usize, b_unit: usize, b: Amt, form: usize },
 }
 
 /// A displayable thing together with the text the property says it must produce.
@@ -387,6 +390,37 @@ pub static RATES: &[RateEntry] = &[
     RateEntry { name: "DataVolume per Soda", make: rate_shown::<DataVolume, Soda>, per_is_unitless: false },
 ];
 
+// ---------------------------------------------------------------------- pairs
+
+struct PairDisplay {
+    a: Box<dyn fmt::Display + Send>,
+    b: Box<dyn fmt::Display + Send>,
+    form: usize,
+}
+
+pub const PAIR_FORMS: usize = 4;
+
+fn pair_specs(form: usize) -> (Spec, Spec, [&'static str; 3]) {
+    let d = Spec::default();
+    match form % PAIR_FORMS {
+        0 => (d, d, ["", "", ""]),
+        1 => (d, d, ["<", "|", ">"]),
+        2 => (Spec { align: 3, width: Some(12), prec: Some(2), ..d }, Spec { align: 1, plus: true, width: Some(10), ..d }, ["", " and ", ""]),
+        _ => (Spec { zero: true, width: Some(8), prec: Some(1), ..d }, d, ["", "/", "."]),
+    }
+}
+
+impl fmt::Display for PairDisplay {
+    fn fmt(&self, f: &mut fmt::Formatter<'_>) -> fmt::Result {
+        match self.form % PAIR_FORMS {
+            0 => write!(f, "{}{}", self.a, self.b),
+            1 => write!(f, "<{}|{}>", self.a, self.b),
+            2 => write!(f, "{:>12.2} and {:<+10}", self.a, self.b),
+            _ => write!(f, "{:08.1}/{}.", self.a, self.b),
+        }
+    }
+}
+
 // ------------------------------------------------------------------ interface
 
 pub fn shown(what: &What, spec: &Spec) -> Shown {
@@ -402,6 +436,22 @@ pub fn shown(what: &What, spec: &Spec) -> Shown {
         What::Rate { pair, term_unit, term, per_unit, per } => {
             let e = &RATES[pair % RATES.len()];
             (e.make)(term_unit, term, per_unit, per, e.name)
+        }
+        What::Pair { a_ty, a_unit, a, b_ty, b_unit, b, form } => {
+            let (sa, sb, lit) = pair_specs(form);
+            let x = shown(&What::Qty { ty: a_ty, unit: a_unit, amount: a }, &sa);
+            let y = shown(&What::Qty { ty: b_ty, unit: b_unit, amount: b }, &sb);
+            let join = |p: &Option<String>, q: &Option<String>| match (p, q) {
+                (Some(p), Some(q)) => Some(format!("{}{}{}{}{}", lit[0], p, lit[1], q, lit[2])),
+                _ => None,
+            };
+            Shown {
+                expect: join(&x.expect, &y.expect),
+                expect_bytes: join(&x.expect_bytes, &y.expect_bytes),
+                describe: format!("pair [{}] [{}] in template {}", x.describe, y.describe, form % PAIR_FORMS),
+                value: Box::new(PairDisplay { a: x.value, b: y.value, form }),
+                parts: None,
+            }
         }
     }
 }
